@@ -61,6 +61,16 @@ def run_equiv(c):
             xin = x
         else:
             xin = pack_padded_sequence(x, torch.tensor(lens), batch_first=c['bf'], enforce_sorted=(c['input'] == 'packed_sorted'))
+        if c.get('badcall', True) and c['layers'] > 1:
+            # a call that both layers must reject (initial state with too few layers), caught: no state may survive the exception
+            bad_state = h0[:1] if c['kind'] != 'lstm' else (h0[:1], c0[:1])
+            xin_b = x if c['input'] == 'padded' else pack_padded_sequence(x, torch.tensor(sorted(lens, reverse=True) if c['input'] == 'packed_sorted' else lens), batch_first=c['bf'], enforce_sorted=(c['input'] == 'packed_sorted'))
+            for m in (t, d):
+                try:
+                    with torch.no_grad():
+                        m(xin_b, bad_state)
+                except Exception:
+                    pass
         if c['input'] != 'padded' and c.get('warm', True) and B > 1:
             # the same layer instances first see another packed batch with the same B and max length but other lengths
             lens0 = list(reversed(lens)) if c['input'] == 'packed_unsorted' else sorted([T] + [max(1, T - 1 - (i % T)) for i in range(B - 1)], reverse=True)
